@@ -2,8 +2,8 @@ SPECIFICATION Spec
 CONSTANTS
   NCol = 3
   NRow = 3
-  SRow = 2
-  Ops = {"remove", "clear", "clone_from"}
+  SRow = 4
+  Ops = {"clone_from"}
   Guarded = FALSE
-INVARIANT PanicSafe
+INVARIANT NoFreedBufferUsed
 CHECK_DEADLOCK FALSE
